@@ -124,6 +124,7 @@ def run(ctx):
     ctx.rule("C17.1", "error exits of WalReader::next_record are I/O errors only; every tail defect ends the log")
     ctx.rule("C17.2", "Wal::append position derives from the end of valid data (see C01.5)")
     ctx.rule("C17.3", "the record buffer allocated from the length field is bounded by a dominating upper-bound test")
+    ctx.rule("C17.5", "the reader's valid-length cursor advances only for records it hands to the caller (never before an end-of-log return)")
     ctx.rule("C17.4", "a short read (UnexpectedEof) in the log reader ends the log: its error arm tests the error kind and can return Ok(None)")
     b = ctx.body(NEXT)
     memo = {}
@@ -204,3 +205,36 @@ def run(ctx):
             ctx.oblige(bool(kind_tests) and ok_none, "C17.4", "%s:read_exact#%d:eof-not-end-of-log" % (i, c.ordinal),
                        "a short read of a record header or body is not turned into end-of-log: a log truncated in the middle of a record makes open fail", c.loc())
     ctx.floor("C17.4", "read_exact sites in WalReader", n4, 2)
+
+    # clause 5: Wal::open truncates the file to the reader's cursor; the cursor must not include a frame that ends the log
+    def is_ok_none(rb, st):
+        if not (st[0] == "a" and st[1][0] == 0 and st[2][0] == "agg" and st[2][3] == "Ok" and st[2][4]):
+            return False
+        o0 = st[2][4][0]
+        if o0[0] == "k":
+            return "None" in o0[1].get("d", "")
+        l0 = op_local(o0)
+        o = rb.origin(l0) if l0 is not None else None
+        return bool(o and ((o[0] == "agg" and o[1][3] == "None") or (o[0] == "const" and "None" in o[1].get("d", ""))))
+
+    nb = ctx.body(NEXT)
+    writes = []
+    for bi, blk in enumerate(nb.blocks):
+        for st in blk["s"]:
+            if st[0] == "a" and any(isinstance(p_, list) and p_[0] == "f" and p_[2] == "offset" and p_[3].endswith("WalReader") for p_ in st[1][1]):
+                writes.append(bi)
+    ctx.floor("C17.5", "cursor updates in next_record", len(writes), 1)
+    none_blocks = {bi for bi, blk in enumerate(nb.blocks) for st in blk["s"] if is_ok_none(nb, st)}
+    ctx.floor("C17.5", "end-of-log returns in next_record", len(none_blocks), 3)
+    for k, w in enumerate(sorted(set(writes))):
+        after = nb.reachable([w]) - {w}
+        bad = sorted(after & none_blocks)
+        ctx.instance("C17.5", "next_record: cursor update #%d, end-of-log returns reachable after it: %s" % (k, bad or "none"))
+        ctx.oblige(not bad, "C17.5", "next_record:cursor-advanced-before-end-of-log#%d" % k,
+                   "the valid-length cursor is advanced and the function can still report end-of-log for that frame (e.g. on a CRC mismatch): "
+                   "Wal::open then keeps the corrupt frame, later commits are appended behind it and are lost on the next reopen",
+                   "%s:%d" % (nb.file, nb.line_of_block(w)))
+    vb = ctx.body("nervusdb_storage::wal::WalReader::valid_len")
+    reads_cursor = any(st[0] == "a" and any(isinstance(p_, list) and p_[0] == "f" and p_[2] == "offset" for pl in ([st[2][1][1]] if st[2][0] == "use" and st[2][1][0] in ("c", "m") else []) for p_ in pl[1]) for blk in vb.blocks for st in blk["s"])
+    ctx.instance("C17.5", "valid_len returns the reader cursor=%s" % reads_cursor)
+    ctx.oblige(reads_cursor, "C17.5", "valid_len:not-from-cursor", "valid_len no longer derives from the reader's record cursor", vb.file)
